@@ -47,7 +47,7 @@ inductive Kind
 
 /-- what the element declaration of a collection looks like (the code branches on it) -/
 inductive Cat
-  | none | number | string | scalar | any | coll | struct | wrap
+  | none | number | string | scalar | any | untyped | coll | struct | inline | wrap
   deriving DecidableEq, Repr, Inhabited
 
 inductive Mode
@@ -75,14 +75,19 @@ def OpK.isInput : OpK → Bool
   | .construct | .setattr | .deserialize | .derive => true
   | _ => false
 
+/-- sites whose content has no declared type: a copy there is a generic deep copy -/
+def Kind.isLeafSite : Kind → Bool
+  | .any | .document | .mapping | .names | .required | .enumValues | .default | .schema => true
+  | _ => false
+
 /-- behaviour of the code at a node, read off a table row -/
 def AliasRow.mode (r : AliasRow) : Mode :=
   if r.returns == .raises then .error
   else if r.op.isInput then
-    (if r.retainsArg then .alias else if r.shallow then .shallow else if r.kind == .any then .deep else .rebuild)
+    (if r.retainsArg then .alias else if r.shallow then .shallow else if r.kind.isLeafSite then .deep else .rebuild)
   else match r.returns with
-    | .fresh => if r.shallow then .shallow else if r.kind == .any || r.kind == .document then .deep else .rebuild
-    | .scalar => .rebuild
+    | .fresh => if r.shallow then .shallow else if r.kind.isLeafSite then .deep else .rebuild
+    | .scalar => if r.kind.isLeafSite then .deep else .rebuild
     | _ => .alias
 
 def lookupRow (tbl : List AliasRow) (op : OpK) (k : Kind) (c : Cat) : Option AliasRow :=
@@ -135,7 +140,8 @@ def Held (h : Heap) (K : List Nat) (a : Nat) : Prop := ∃ r, r ∈ K ∧ Reach 
 
 inductive Shape
   | scalar (c : Cat)                                   -- Integer, String, Boolean, Enum, NoneField …
-  | any                                                -- Anything / untyped
+  | any                                                -- an `Anything` field
+  | untyped                                            -- implicit: elements of an untyped collection, undeclared keys
   | coll (k : Kind) (item : Shape)                     -- Array[T], Deque[T], Set[T], Tuple[T], Map[K, V]
   | keyed (k : Kind) (fields : List (String × Shape))  -- structure / positional items, by key
   | wrap (k : Kind) (inner : Shape)                    -- AnyOf / OneOf / AllOf / NotField (the matching option)
@@ -144,8 +150,12 @@ inductive Shape
 def Shape.cat : Shape → Cat
   | .scalar c => c
   | .any => .any
+  | .untyped => .untyped
   | .coll _ _ => .coll
-  | .keyed _ _ => .struct
+  | .keyed .struct _ => .struct
+  | .keyed .root _ => .struct
+  | .keyed .inline _ => .inline
+  | .keyed _ _ => .coll
   | .wrap _ _ => .wrap
 
 /-! ## transformers -/
@@ -251,6 +261,7 @@ mutual
 def transfer (M : Kind → Cat → Mode) (fuel : Nat) : Shape → Heap → Item → R Item
   | .scalar _, h, i => leafScalar h i
   | .any, h, i => leafAny (M .any .none) fuel h i
+  | .untyped, h, i => leafAny (M .any .none) fuel h i
   | .coll k s, h, i => nodeColl (M k s.cat) fuel (fun h' i' => transfer M fuel s h' i') h i
   | .keyed k fs, h, i => nodeRec (M k .none) fuel (fun h' its => transferFields M fuel fs h' its) h i
   | .wrap k s, h, i => nodeWrap (M k s.cat) fuel (fun h' i' => transfer M fuel s h' i') h i
@@ -266,15 +277,17 @@ end
 
 /-! ## the decidable "no aliasing at any node" predicate -/
 
+/-- the node never hands on the reference it was given (a node that raises hands on nothing) -/
 def Mode.copies : Mode → Bool
-  | .rebuild | .deep => true
+  | .rebuild | .deep | .error => true
   | _ => false
 
 mutual
 /-- every node of the declaration is copied by the operation (`rebuild`/`deep`); untyped leaves are deep-copied -/
 def safeShape (M : Kind → Cat → Mode) : Shape → Bool
   | .scalar _ => true
-  | .any => M .any .none == .deep
+  | .any => (M .any .none).copies
+  | .untyped => (M .any .none).copies
   | .coll k s => (M k s.cat).copies && safeShape M s
   | .keyed k fs => (M k .none).copies && safeFields M fs
   | .wrap k s => (M k s.cat).copies && safeShape M s
@@ -290,6 +303,7 @@ mutual
 def sitesOf : Shape → List (Kind × Cat)
   | .scalar _ => []
   | .any => [(.any, .none)]
+  | .untyped => [(.any, .none)]
   | .coll k s => (k, s.cat) :: sitesOf s
   | .keyed k fs => (k, .none) :: sitesOfFields fs
   | .wrap k s => (k, s.cat) :: sitesOf s
